@@ -1,3 +1,125 @@
 import Srctools.Wire
-/-! stub driver (echo) — replaced when the property's model exists. -/
-def main : IO Unit := Wire.main fun j => pure j
+import Srctools.Model.C07
+import Srctools.Gen.C07
+/-! Driver for the C07 model (VMF class/name indexes).
+One request per line = one whole history on two maps:
+  {"fold":[[cp,[cp…]]…], "queries":[[cp…]…], "ops":[wop…]}
+reply:
+  {"steps":[obs…]}   (obs 0 = initial state, then one per operation)
+  obs = {"res":code, "maps":[dump,dump], "search":[[[id…]…],[[id…]…]]}
+  dump = {"spawn":id,"ents":[id…],"objs":[[[k,v]…]…],"cls":[[key,id]…],"tgt":[[key|null,id]…]}
+wop = {"m":0|1,"op":name,…}:
+  construct{kvs} add{e} adds{es} create{cls,kw} remove{e} set{e,k,v} del{e,ks} pop{e,k} popitem{e}
+  clear{e} update{e,kvs} unique{e,pre} copy{e} copyx{e} parse{spawn,ents}
+  iterc{key,act} itert{key|null,act}     act = {"a":set|del|pop|remove|clear|create, …}
+The repairs the model assumes are `Gen.C07.current` (extracted from vmf.py); a request may override
+them with "fix":[9 booleans] (used to replay histories against the as-found model).
+-/
+open Lean C07
+
+def nameOf (j : Json) : Except String C07.Name := Wire.strOfCodes j
+
+def kvsOf (j : Json) : Except String KVs := do
+  let a ← j.getArr?
+  a.toList.mapM fun p => do
+    let q ← p.getArr?
+    if q.size != 2 then throw "kv: need [k,v]"
+    pure (← nameOf q[0]!, ← nameOf q[1]!)
+
+def namesOf (j : Json) : Except String (List C07.Name) := do
+  let a ← j.getArr?
+  a.toList.mapM nameOf
+
+def optNameOf (j : Json) : Except String (Option C07.Name) :=
+  if j.isNull then pure none else do pure (some (← nameOf j))
+
+def foldOf (j : Json) : Except String (C07.Name → C07.Name) := do
+  let a ← j.getArr?
+  let pairs ← a.toList.mapM fun p => do
+    let q ← p.getArr?
+    let k ← (q[0]!).getNat?
+    let v ← Wire.strOfCodes (q[1]!)
+    pure (Char.ofNat k, v)
+  let fc (c : Char) : List Char := match pairs.find? (·.1 == c) with
+    | some p => p.2
+    | none => [lowerChar c]
+  pure fun s => s.flatMap fc
+
+def actOf (j : Json) : Except String Act := do
+  let a ← j.getObjValAs? String "a"
+  match a with
+  | "set" => pure (.set (← nameOf (← j.getObjVal? "k")) (← nameOf (← j.getObjVal? "v")))
+  | "del" => pure (.del (← nameOf (← j.getObjVal? "k")))
+  | "pop" => pure (.pop (← nameOf (← j.getObjVal? "k")))
+  | "remove" => pure .remove
+  | "clear" => pure .clear
+  | "create" => pure (.create (← nameOf (← j.getObjVal? "cls")) (← kvsOf (← j.getObjVal? "kw")))
+  | _ => throw s!"unknown act {a}"
+
+def wopOf (j : Json) : Except String WOp := do
+  let m := (← j.getObjValAs? Nat "m") != 0
+  let op ← j.getObjValAs? String "op"
+  let e : Except String Nat := j.getObjValAs? Nat "e"
+  let nm (f : String) : Except String C07.Name := do nameOf (← j.getObjVal? f)
+  match op with
+  | "construct" => pure (.on m (.construct (← kvsOf (← j.getObjVal? "kvs"))))
+  | "add" => pure (.on m (.addEnt (← e)))
+  | "adds" => pure (.on m (.addEnts (← Wire.natList (← j.getObjVal? "es"))))
+  | "create" => pure (.on m (.createEnt (← nm "cls") (← kvsOf (← j.getObjVal? "kw"))))
+  | "remove" => pure (.on m (.removeEnt (← e)))
+  | "set" => pure (.on m (.setKey (← e) (← nm "k") (← nm "v")))
+  | "del" => pure (.on m (.delKeys (← e) (← namesOf (← j.getObjVal? "ks"))))
+  | "pop" => pure (.on m (.popKey (← e) (← nm "k")))
+  | "popitem" => pure (.on m (.popItem (← e)))
+  | "clear" => pure (.on m (.clear (← e)))
+  | "update" => pure (.on m (.update (← e) (← kvsOf (← j.getObjVal? "kvs"))))
+  | "unique" => pure (.on m (.makeUnique (← e) (← nm "pre")))
+  | "copy" => pure (.on m (.copy (← e)))
+  | "copyx" => pure (.copyAcross m (← e))
+  | "parse" =>
+    let es ← (← j.getObjVal? "ents").getArr?
+    pure (.parse m (← kvsOf (← j.getObjVal? "spawn")) (← es.toList.mapM kvsOf))
+  | "iterc" => pure (.on m (.iterClass (← nm "key") (← actOf (← j.getObjVal? "act"))))
+  | "itert" => pure (.on m (.iterTarget (← optNameOf (← j.getObjVal? "key")) (← actOf (← j.getObjVal? "act"))))
+  | _ => throw s!"unknown op {op}"
+
+def natJ (n : Nat) : Json := Json.num (JsonNumber.fromNat n)
+
+def dumpSt (s : St) : Json :=
+  Json.mkObj [
+    ("spawn", natJ s.spawn),
+    ("ents", Wire.ofNatList s.ents),
+    ("objs", Json.arr (s.objs.map fun ks =>
+      Json.arr (ks.map fun p => Json.arr #[Wire.codesOfStr p.1, Wire.codesOfStr p.2]).toArray).toArray),
+    ("cls", Json.arr (s.byClass.map fun p => Json.arr #[Wire.codesOfStr p.1, natJ p.2]).toArray),
+    ("tgt", Json.arr (s.byTarget.map fun p =>
+      Json.arr #[(match p.1 with | some k => Wire.codesOfStr k | none => Json.null), natJ p.2]).toArray)]
+
+def obs (fold : C07.Name → C07.Name) (qs : List C07.Name) (w : World) (r : Res) : Json :=
+  Json.mkObj [
+    ("res", natJ r.code),
+    ("maps", Json.arr #[dumpSt w.a, dumpSt w.b]),
+    ("search", Json.arr #[
+      Json.arr (qs.map fun q => Wire.ofNatList (search fold w.a q)).toArray,
+      Json.arr (qs.map fun q => Wire.ofNatList (search fold w.b q)).toArray])]
+
+def fixOf (j : Json) : Except String Fix := do
+  let a ← j.getArr?
+  if a.size != 9 then throw "fix: need 9 booleans"
+  let b (i : Nat) : Except String Bool := (a[i]!).getBool?
+  pure ⟨← b 0, ← b 1, ← b 2, ← b 3, ← b 4, ← b 5, ← b 6, ← b 7, ← b 8⟩
+
+def handle (j : Json) : Except String Json := do
+  let fold ← foldOf (← j.getObjVal? "fold")
+  let qs ← namesOf (← j.getObjVal? "queries")
+  let ops ← (← (← j.getObjVal? "ops").getArr?).toList.mapM wopOf
+  let fx ← match j.getObjVal? "fix" with
+    | .ok f => fixOf f
+    | .error _ => pure Gen.C07.current
+  let w0 := winit fx fold
+  let (_, out) := ops.foldl (init := (w0, [obs fold qs w0 .ok])) fun (w, acc) op =>
+    let r := wstep fx fold w op
+    (r.1, obs fold qs r.1 r.2 :: acc)
+  pure (Json.mkObj [("steps", Json.arr out.reverse.toArray)])
+
+def main : IO Unit := Wire.main handle
